@@ -697,6 +697,9 @@ class Executor:
         if ln.as_long() != len(node.elts):
           self.py_raise('ValueError', node, note='wrong number of values to unpack')
         return [v.get(i) for i in range(ln.as_long())]
+      if not self.path.decide(v.len == len(node.elts)):
+        self.py_raise('ValueError', node, note='wrong number of values to unpack')
+      return [v.get(i) for i in range(len(node.elts))]
     if isinstance(v, VObj) and isinstance(node, (ast.Tuple, ast.List)):
       n = len(node.elts)
       vlen = sym.ufun('val_len', sym.Val, sym.IntS)(v.e)
@@ -1126,7 +1129,8 @@ class Executor:
             cands.append(C.REGISTRY[self.world.EXTERNALS[dotted]])
           else:
             for q, cc in C.REGISTRY.items():
-              if q.endswith('.' + f.attr) or q.endswith('::' + f.attr):
+              q0 = q.split('#')[0]
+              if q0.endswith('.' + f.attr) or q0.endswith('::' + f.attr):
                 cands.append(cc)
             if f.attr in self.world.VAL_METHOD_CONTRACTS:
               cands.append(C.REGISTRY[self.world.VAL_METHOD_CONTRACTS[f.attr]])
@@ -1810,6 +1814,8 @@ class Executor:
       selfw = fn.payload[0]
     c = C.REGISTRY.get(qual)
     if c is not None and not (qual in self.contract.inline_ok):
+      if qual.endswith('#abstract'):
+        return self.call_contract(c, [selfw] + list(args), kwargs, node, None)
       return self.call_contract(c, args, kwargs, node, selfw)
     if qual in self.world.INLINE or qual in self.contract.inline_ok:
       return self.inline_call(qual, args, kwargs, node, selfw)
@@ -1926,6 +1932,8 @@ class Executor:
       if kind is None:
         continue
       a[n] = self.world.materialize(self, a[n], kind)
+      if isinstance(a[n], VNone) and kind is KVal:
+        a[n] = VObj(sym.VAL_NONE)
       a[n] = coerce(a[n], kind) if not isinstance(a[n], VNone) or isinstance(kind, KOpt) \
           else a[n]
     args_snap = {k: snapshot(v) for k, v in a.items()}
